@@ -2292,8 +2292,14 @@ class Lengths(Expr):
 
     def _simplify_down(self):
         if isinstance(self.frame, Elemwise):
-            child = max(self.frame.dependencies(), key=lambda expr: expr.npartitions)
-            return Lengths(child)
+            # An operand with other rows (a filtered one, which pandas aligns
+            # with) or with none (a scalar, a broadcasted series) says nothing
+            # about the partitions of the result
+            if same_rows_source(self.frame) is self.frame:
+                return
+            for dep in self.frame.dependencies():
+                if dep.ndim > 0 and not self.frame._broadcast_dep(dep):
+                    return Lengths(dep)
 
     def _layer(self):
         name = "part-" + self._name
